@@ -23,6 +23,17 @@ def dihedral(p1, p2, p3, p4):
     return math.atan2(y, x), margin
 
 
+def bond_sines(p1, p2, p3, p4):
+    """Sines of the two bond angles p1-p2-p3 and p2-p3-p4 (0 = collinear: the dihedral is undefined there)."""
+    b1 = np.asarray(p2, float) - np.asarray(p1, float)
+    b2 = np.asarray(p3, float) - np.asarray(p2, float)
+    b3 = np.asarray(p4, float) - np.asarray(p3, float)
+    l1, l2, l3 = (float(np.linalg.norm(b)) for b in (b1, b2, b3))
+    if l1 == 0.0 or l2 == 0.0 or l3 == 0.0:
+        return 0.0, 0.0
+    return float(np.linalg.norm(np.cross(b1, b2))) / (l1 * l2), float(np.linalg.norm(np.cross(b2, b3))) / (l2 * l3)
+
+
 def build_dihedral(phi, l1, l2, l3, th1, th2):
     """Four points with prescribed IUPAC dihedral phi.  p2 at the origin,
     p3 on +x; viewer looks along +x with +y up, so +z is to the right and a
